@@ -4,6 +4,7 @@ import RtenVerif.Lemmas.Perm
 import RtenVerif.Lemmas.Gather
 import RtenVerif.Lemmas.SliceT1
 import RtenVerif.Lemmas.AxisSel
+import RtenVerif.Lemmas.WF
 
 /-!
 # C09 — Layout transformations match a reference array model
@@ -588,6 +589,10 @@ inductive VOp
   | mv (src dst : Nat)
   | ia (k : Nat)
   | ra (k : Nat)
+  | ix (axis index : Nat)
+  | sl (items : List SliceItem)
+  | sa (axis start stop : Nat)
+  | split (axis mid : Nat) (right : Bool)
 
 def VOp.applyL : VOp → View → Except Err View
   | .tr, v => .ok (transposed v)
@@ -595,6 +600,10 @@ def VOp.applyL : VOp → View → Except Err View
   | .mv a b, v => moveAxis v a b
   | .ia k, v => insertAxis v k
   | .ra k, v => removeAxis v k
+  | .ix a i, v => indexAxis v a i
+  | .sl items, v => trySlice v items
+  | .sa a b c, v => sliceAxis v a b c
+  | .split a m r, v => splitAt v a m r
 
 def VOp.applyR : VOp → NArr α → Except Err (NArr α)
   | .tr, A => .ok A.transpose
@@ -602,15 +611,37 @@ def VOp.applyR : VOp → NArr α → Except Err (NArr α)
   | .mv a b, A => A.moveAxis a b
   | .ia k, A => A.insertAxis k
   | .ra k, A => A.removeAxis k
+  | .ix a i, A => A.indexAxis a i
+  | .sl items, A => A.slice (items.map toRefItem)
+  | .sa a b c, A => A.sliceAxis a b c
+  | .split a m r, A => A.splitAt a m r
 
-theorem c09_step (op : VOp) (v : View) (s : Nat → α) :
-    (op.applyL v).map (fun v' => denote v' s) = op.applyR (denote v s) := by
+/-- Slice ranges are built by `SliceRange::new`, which rejects a zero step. -/
+def VOp.stepsOk : VOp → Prop
+  | .sl items => ∀ r, SliceItem.range r ∈ items → r.step ≠ 0
+  | _ => True
+
+/-- **C09.T1 (all covered operations at once)**: on a view whose storage window covers its
+layout, the operation denotes the reference operation or fails with the same error class, and
+the result covers its layout again. -/
+theorem c09_step (op : VOp) (v : View) (s : Nat → α) (hwf : WF v) (hs : op.stepsOk) :
+    (op.applyL v).map (fun v' => denote v' s) = op.applyR (denote v s) ∧
+    ∀ v', op.applyL v = .ok v' → WF v' := by
   cases op with
-  | tr => simp only [VOp.applyL, VOp.applyR, Except.map, c09_transpose]
-  | perm p => exact c09_permute v p s
-  | mv a b => exact c09_move_axis v a b s
-  | ia k => exact c09_insert_axis v k s
-  | ra k => exact c09_remove_axis v k s
+  | tr =>
+    refine ⟨by simp only [VOp.applyL, VOp.applyR, Except.map, c09_transpose], ?_⟩
+    intro v' h
+    simp only [VOp.applyL] at h
+    injection h with h
+    exact h ▸ WF_transposed v hwf
+  | perm p => exact ⟨c09_permute v p s, fun v' h => WF_permuted v v' p h hwf⟩
+  | mv a b => exact ⟨c09_move_axis v a b s, fun v' h => WF_moveAxis v v' a b h hwf⟩
+  | ia k => exact ⟨c09_insert_axis v k s, fun v' h => WF_insertAxis v v' k h hwf⟩
+  | ra k => exact ⟨c09_remove_axis v k s, fun v' h => WF_removeAxis v v' k h hwf⟩
+  | ix a i => exact c09_index_axis v a i s hwf
+  | sl items => exact c09_slice v items s hwf hs
+  | sa a b c => exact c09_slice_axis v a b c s hwf
+  | split a m r => exact c09_split_at v a m r s hwf
 
 def chainL : List VOp → View → Except Err View
   | [], v => .ok v
@@ -624,15 +655,17 @@ def chainR : List VOp → NArr α → Except Err (NArr α)
     | .ok A' => chainR ops A'
     | .error e => .error e
 
-/-- **C09.T2** Any chain of the operations above, applied to the layout, denotes what the same
-chain of reference operations yields on the denoted array; a failing step fails on both sides
-with the same error class (by induction over the chain from the T1 theorems). -/
-theorem c09_chain (ops : List VOp) (v : View) (s : Nat → α) :
+/-- **C09.T2** Any chain of the operations above, applied to the layout of a view that covers its
+storage needs, denotes what the same chain of reference operations yields on the denoted array;
+a failing step fails on both sides with the same error class, and no step can hit the storage
+range assertion (by induction over the chain from the T1 theorems and the invariant). -/
+theorem c09_chain (ops : List VOp) (v : View) (s : Nat → α) (hwf : WF v)
+    (hs : ∀ op ∈ ops, op.stepsOk) :
     (chainL ops v).map (fun v' => denote v' s) = chainR ops (denote v s) := by
   induction ops generalizing v with
   | nil => rfl
   | cons op ops ih =>
-    have hstep := c09_step op v s
+    obtain ⟨hstep, hwf'⟩ := c09_step op v s hwf (hs op List.mem_cons_self)
     simp only [chainL, chainR]
     cases hL : op.applyL v with
     | error e =>
@@ -644,12 +677,12 @@ theorem c09_chain (ops : List VOp) (v : View) (s : Nat → α) :
       rw [hL] at hstep
       simp only [Except.map] at hstep
       rw [← hstep]
-      exact ih v'
+      exact ih v' (hwf' v' hL) (fun op' h => hs op' (List.mem_cons_of_mem _ h))
 
 /-- Non-vacuity: a chain that runs to completion on a non-contiguous source, evaluated. -/
-example : (chainL [.tr, .ia 1, .mv 0 2, .ra 0] ⟨1, 12, [(2, 4), (3, 1)]⟩).map
-      (fun v' => denote v' (fun i => i)) =
-    .ok (⟨[2, 3], [1, 2, 3, 5, 6, 7]⟩ : NArr Nat) := by rfl
+example : (chainL [.tr, .ia 1, .mv 0 2, .ra 0, .sl [.range ⟨-2, none, 1⟩, .range ⟨0, none, 2⟩],
+      .split 1 1 true] ⟨1, 12, [(2, 4), (3, 1)]⟩).map (fun v' => denote v' (fun i => i)) =
+    .ok (⟨[2, 1], [3, 7]⟩ : NArr Nat) ∧ WF ⟨1, 12, [(2, 4), (3, 1)]⟩ := ⟨by rfl, by unfold WF; decide⟩
 
 /-- … and one that fails in the middle on both sides. -/
 example : (chainL [.tr, .ra 0] ⟨0, 6, [(2, 3), (3, 1)]⟩).map (fun v' => denote v' (fun i => i)) =
